@@ -515,6 +515,14 @@ func (l *lookCtx) Err() error {
 // the connection goes away (and the client has the time to notice it) or the caller's context is cancelled.
 // The call returns its own response or an error; the following calls recover.
 func contextLooks(c *core.Ctx, r *core.Rand, i int) {
+	// where two of the library's channels become ready at the same look, which one its select takes is the runtime's
+	// choice: every placement is tried several times
+	for rep := 0; rep < 4 && len(c.ViolationsSoFar()) == 0; rep++ {
+		contextLookOnce(c, r, i)
+	}
+}
+
+func contextLookOnce(c *core.Ctx, r *core.Rand, i int) {
 	const maxLook = 14
 	at := int32(1 + i%maxLook)
 	mode := (i / maxLook) % 3
